@@ -112,6 +112,7 @@ def cmd_verify(sid):
         res["confirmed"] = bool(res["patch_applies"] and not res["patch_touches_tests"] and ok and res["demo_fails_with_change"] and res["demo_passes_without_change"])
         return res
     finally:
+        m = load(sid)  # re-read: a concurrent `check` may have written meanwhile
         m["verified"] = res
         save(sid, m)
         sh(f"git -C /repo worktree remove --force {wt}")
@@ -170,6 +171,7 @@ def cmd_check(sid, tier, props):
             out.append(rec)
             print(sid, prop, tier, verdict, f"{time.time()-t0:.0f}s", first[:220], flush=True)
     finally:
+        m = load(sid)  # re-read: a concurrent `verify` may have written meanwhile
         m.setdefault("checks", [])
         m["checks"] = [c for c in m["checks"] if not any(c["check"] == o["check"] and c["tier"] == o["tier"] for o in out)] + out
         save(sid, m)
